@@ -1,5 +1,6 @@
 """C06 - a Strict writer only ever emits lines that a Strict reader accepts."""
 import json
+import os
 
 from .. import colcases, impl, sortcases as SC
 from ..common import enc_val, exc_name, float_table, has_unmodelled
@@ -553,6 +554,50 @@ def scheme_value_cases(ctx, out):
                 out.disagreements.append(model_differs(r, ["value"], False, m, i))
 
 
+PATH_NAMES = ["out.maf", "out.maf.gz", "out.gz", "out.maf.bgz", "out.bgz", "out.maf.GZ", "out.maf.bz2", "out.txt", "out", "out.maf.gz.tmp"]
+
+
+def eval_path_name(name, sort, n):
+    """The path-based entry points on both sides: MafWriter.from_path(name, Strict) writes n conforming records (directly
+    or through the sorter), MafReader.reader_from(the same name, Strict) accepts the file in full - whatever the name."""
+    import tempfile
+    from maflib.header import MafHeader
+    from maflib.reader import MafReader
+    from maflib.sort_order import Coordinate
+    from maflib.validation import ValidationStringency as VS
+    from maflib.writer import MafWriter
+    where = {"kind": "path-name", "name": name, "sorting": sort, "records": n}
+    with tempfile.TemporaryDirectory() as tmp, impl.LogCapture():
+        path = os.path.join(tmp, name)
+        recs = [SC.typed_record(None, "T1", "N1", "1", 50 - 7 * k, 60) for k in range(n)]
+        try:
+            h = MafHeader.from_defaults(version=ANN, sort_order=Coordinate()) if sort else MafHeader.from_defaults(version=ANN)
+            w = MafWriter.from_path(path, h, validation_stringency=VS.Strict, assume_sorted=not sort)
+            for r in recs:
+                w += r
+            w.close()
+        except Exception as e:  # noqa
+            return [dict(where, what="a Strict writer opened by from_path(%r) failed on conforming records with %s" % (name, exc_name(e)))]
+        try:
+            rd = MafReader.reader_from(path, validation_stringency=VS.Strict)
+            got = [str(r) for r in rd]
+            rd.close()
+        except Exception as e:  # noqa
+            return [dict(where, what="the file a Strict writer produced at %r is not accepted by a Strict MafReader.reader_from of the same path (%s)" % (name, exc_name(e)))]
+        if sorted(got) != sorted(str(r) for r in recs):
+            return [dict(where, what="the file a Strict writer produced at %r reads back (reader_from, Strict) as %d records for %d accepted" % (name, len(got), n))]
+    return []
+
+
+def path_name_cases(ctx, out):
+    for name in PATH_NAMES:
+        for sort in (False, True):
+            out.evaluations += 1
+            out.failures += eval_path_name(name, sort, 3)
+            out.distribution["writer by path, reader by the same path (file names of every suffix)"] += 1
+            out.nontrivial.add(("path-name", name, sort))
+
+
 def run(ctx):
     out = Outcome()
     out.rule = ("Strict writers (direct and sorting) under gdc-1.0.0 offered conforming records interleaved with records deviating in one way: a value of a wrong Python type / out of range / "
@@ -595,6 +640,7 @@ def run(ctx):
     history_cases(ctx, out)
     scheme_value_cases(ctx, out)
     subclass_framing_cases(ctx, out)
+    path_name_cases(ctx, out)
     # the translated hook bodies, interpreted, against the real methods (validates the PyIR interpreter and the translator)
     from .. import bodycases
     bodycases.hook_cases(ctx, out)
@@ -603,6 +649,13 @@ def run(ctx):
 
 
 def replay_case(ctx, failure):
+    if failure.get("kind") == "path-name" and "name" in failure:
+        fails = eval_path_name(failure["name"], bool(failure.get("sorting")), int(failure.get("records", 3)))
+        print("replay C06: MafWriter.from_path(%r, default gdc-1.0.0 header, Strict%s) += %d conforming records; close(); MafReader.reader_from(the same path, Strict)" % (
+            failure["name"], ", assume_sorted=False under sort.order Coordinate" if failure.get("sorting") else "", int(failure.get("records", 3))))
+        for x in fails:
+            print("  oracle: %s" % x["what"])
+        return fails
     """Re-evaluate the stored failing input on the current implementation; return the list of failure dicts it
     produces now (empty list = the property holds on that input)."""
     if isinstance(failure.get("history"), dict):
